@@ -7,17 +7,26 @@ CLAIM = ('Proved in Coq for the model, Numbers naming, direct mode, EVERY histor
          'records in order, also for kills inside a rotation or the initialisation (C11_numbers_kill_keeps_acked); a logger '
          'started on that directory with any capacity, criterion and append flag succeeds in every operation and ends with '
          'exactly acknowledged ++ its own records (C11_numbers_kill_restart; bound: first run shorter than 2^32 operations). For '
-         'the other namings, cleanup and compression the property is decided per explored history and kill point: the first part '
-         'of each history runs in a child process in which the k-th file-system effect (write, rename, create, remove, symlink '
-         'replacement, gzip create / copy / finish) aborts the process; the parent starts a new logger on the directory as it is '
-         '(append on or off), logs on, and an executable oracle checks that the restart and all later operations succeed, that '
-         'every acknowledged direct-mode record and every later record is in the stream in order (a tail under a cleanup limit; '
-         'an archive next to its complete original is ignored), and that a configured symlink leads to the file being written; '
-         'the model predicts the directory the kill leaves and everything after it (correspondence): partial. Assumption: each '
-         'file-system call is atomic with respect to the kill, and a killed process loses no page-cache data. The two '
-         'history-level theorems are also proved for NumbersDirect naming (C11_numbersdirect_kill_keeps_acked, '
-         'C11_numbersdirect_kill_restart). ')
-THEOREMS = ["C11_numbers_kill_keeps_acked", "C11_numbers_kill_restart", "C11_dead_no_effect", "C11_kill_point", "C11_alive_effect", "C11_numbersdirect_kill_keeps_acked", "C11_numbersdirect_kill_restart"]
+         'the time-stamp namings (and cleanup with other namings than Numbers) the property is decided per explored history and '
+         'kill point: the first part of each history runs in a child process in which the k-th file-system effect (write, '
+         'rename, create, remove, symlink replacement, gzip create / copy / finish) aborts the process; the parent starts a new '
+         'logger on the directory as it is (append on or off), logs on, and an executable oracle checks that the restart and all '
+         'later operations succeed, that every acknowledged direct-mode record and every later record is in the stream in order '
+         '(a tail under a cleanup limit; an archive next to its complete original is ignored), and that a configured symlink '
+         'leads to the file being written; the model predicts the directory the kill leaves and everything after it '
+         '(correspondence): partial. Assumption: each file-system call is atomic with respect to the kill, and a killed process '
+         'loses no page-cache data. The two history-level theorems are also proved for NumbersDirect naming '
+         '(C11_numbersdirect_kill_keeps_acked, C11_numbersdirect_kill_restart). WITH A CLEANUP STRATEGY (proved, Numbers naming, '
+         'cleanup in the logging thread, direct mode, every history and every kill point - those inside the cleanup included: '
+         'remove_file, and in compress_file create archive / copy / finish / remove original): what the killed process leaves, '
+         'read by number with archives decompressed and an archive next to its original ignored (it is unfinished or holds the '
+         'same content; an unfinished archive never stands alone), is a tail of the acknowledged records that contains '
+         'everything a completed cleanup would have kept, nothing twice (C11_numbers_cleanup_kill_keeps_acked); a new writer '
+         'with the same configuration succeeds in every operation, repairs the leftovers with its first record and leaves a tail '
+         'of acknowledged ++ own records in the shape a run without kill leaves (C11_numbers_cleanup_kill_restart; side '
+         'conditions as in C07). All kill points of small histories are also enumerated in Coq against the plain oracles '
+         '(Flw/NumCleanupKillEx.v). ')
+THEOREMS = ["C11_numbers_kill_keeps_acked", "C11_numbers_kill_restart", "C11_dead_no_effect", "C11_kill_point", "C11_alive_effect", "C11_numbersdirect_kill_keeps_acked", "C11_numbersdirect_kill_restart", "C11_numbers_cleanup_kill_keeps_acked", "C11_numbers_cleanup_kill_restart"]
 TRUSTED = ["assumed: atomicity of single file-system calls under SIGABRT, no loss of written data in the page cache; the kill happens at "
            "the hook point immediately before a call, never inside one"]
 ASSUMPTIONS = ["the virtual clock does not advance within a crash history (file birth times are not carried over to the restarted process)"]
